@@ -847,6 +847,25 @@ func (in *Interp) assume(c *term.Term) {
 	}
 }
 
+// provable reports whether c holds on every input of the current path.
+func (in *Interp) provable(c *term.Term) bool {
+	if c.IsConst() {
+		return c.Val != 0
+	}
+	if in.implied(c) == 1 {
+		return true
+	}
+	if in.eval(c) == 0 || in.cfg.Concrete != nil {
+		return in.cfg.Concrete != nil && in.eval(c) != 0
+	}
+	r, _ := in.check(in.ts.Not(c))
+	if r == solver.Unsat {
+		in.pcAdd(c) // remember the fact as a literal (it is implied by the path condition)
+		return true
+	}
+	return false
+}
+
 // choose returns a nondeterministic value in [0,n).
 func (in *Interp) choose(n int, label string) int {
 	if n <= 1 {
